@@ -731,9 +731,15 @@ def round_rule(rep, mod):
                                else 'the integer part is never incremented after the rounding')))
     zeroed = []
     for s_ in stores_to(f, X):
-        if R is None or not f.dominates(R, s_) or not f.dominates_block(s_.block, FD['header']):
+        # a store of zero to the fraction after the rounding that can reach the fraction-digit loop: unconditional with a
+        # select/phi of zero, or a conditional `if (carry) fp = 0`
+        if R is None or not f.dominates(R, s_) or FD['header'] not in f.reachable_blocks(s_.block):
             continue
-        leaves = value_slice(f, fstrip(f, s_.ops[0]), ops=('select', 'phi') + FCASTS)
+        v0 = fstrip(f, s_.ops[0])
+        if v0.k == 'cf' and c13_fi.f_from_bits(v0.d.get('bitsd', 1)) == 0.0:
+            zeroed.append(s_)
+            continue
+        leaves = value_slice(f, v0, ops=('select', 'phi') + FCASTS)
         consts = []
         for x in leaves:
             for o in (x.ops[1:] if x.op == 'select' else x.ops):
